@@ -58,6 +58,8 @@ elif scenario == "store_obj":
     LocalFileStore(internal, data).store_blob("kobj", {"a": list(range(50))})
 elif scenario == "recommit":
     LocalFileStore(internal, data).sync_paths(OrderedDict([("/p", "knew2")]))
+elif scenario == "recommit_same":
+    LocalFileStore(internal, data).sync_paths(OrderedDict([("/p", "kold"), ("/fresh", "knew2")]))
 elif scenario == "commit_nested":
     LocalFileStore(internal, data).sync_paths(OrderedDict([("/dir/sub/q", "kold")]))
 elif scenario == "keep":
@@ -97,7 +99,7 @@ def main():
         elif len(violations) < 10:
             violations.append({"what": what})
 
-    for scenario in ("create", "store_str", "store_obj", "recommit", "commit_nested", "keep"):
+    for scenario in ("create", "store_str", "store_obj", "recommit", "recommit_same", "commit_nested", "keep"):
         n = 0
         while True:
             n += 1
@@ -141,7 +143,8 @@ def main():
                     if key is not None and (key not in ("kold", "knew2") or st.fetch_blob(key) != INTENDED[key]):
                         note("unlink_before_relink", "%s: /p resolves to %r" % (tag, key))
                 except BaseException as e:
-                    note("unlink_before_relink", "%s: /p, committed before the crash, no longer loads: %s" % (tag, type(e).__name__))
+                    # recorded only for a path that is being re-pointed to another key; an unchanged path must survive any kill
+                    note("unlink_before_relink" if scenario == "recommit" else None, "%s: /p, committed before the crash, no longer loads: %s" % (tag, type(e).__name__))
                 # the interrupted operation is simply run again
                 p2 = subprocess.run([sys.executable, "-c", CHILD, "0", scenario, base], capture_output=True, text=True, env=env, timeout=120)
                 if p2.returncode != 0:
